@@ -197,6 +197,8 @@ def match(p, e, self_param=1):
         return p[1] in ps and ps <= {p[1], self_param}
     if p[0] == "param":
         return e == p
+    if p[0] == "const":
+        return e[0] == "const" and str(e[1]).startswith(p[1])
     if p[0] == "field":
         return e[0] == "field" and e[2] == p[2] and (p[1] is None or e[1] == p[1]) or \
             (e[0] == "call" and e[1] == "field:%s.%s" % (p[1], p[2]))
